@@ -57,6 +57,29 @@ def shape_class(case):
     return "2d"
 
 
+_IND = {}
+
+
+def independent_sets(h, w):
+    """All patterns with no two orthogonally adjacent active cells (row-major tuples of bools)."""
+    if (h, w) in _IND:
+        return _IND[(h, w)]
+    rows = [r for r in range(1 << w) if not (r & (r >> 1))]
+    out = []
+
+    def rec(y, prev, acc):
+        if y == h:
+            out.append(tuple(bool(acc[yy] >> x & 1) for yy in range(h) for x in range(w)))
+            return
+        for r in rows:
+            if not (r & prev):
+                rec(y + 1, r, acc + [r])
+
+    rec(0, 0, [])
+    _IND[(h, w)] = out
+    return out
+
+
 def run_case(part, case, prange=None):
     if "shape" in case:
         h, w = case["shape"]
@@ -69,6 +92,16 @@ def run_case(part, case, prange=None):
         s, a = build(case)
     except Exception as e:
         part.violation(key + ":build-raises-" + type(e).__name__, case, {"exception": repr(e)[:300]})
+        return
+    if case.get("family") == "independent":
+        # restricted family on larger boards: only the patterns that pass the (separately verified) adjacency rule,
+        # i.e. exactly the ones on which the connectivity / rank part of the encoding decides
+        lst = independent_sets(h, w)
+        lo, hi = prange if prange else (0, len(lst))
+        for pattern in lst[lo:hi]:
+            exp = oracle(n, edges, pattern, case["seg"])
+            gcheck.judge(part, key + "{independent-sets}", case, pattern, exp, s, [gcheck.fix(v, b) for v, b in zip(a, pattern)])
+        part.add("restricted", (h, w, lo, hi))
         return
     for pattern in gcheck.patterns(n, prange):
         exp = oracle(n, edges, pattern, case["seg"])
@@ -98,6 +131,9 @@ def cases_for(tier):
             out.append({"route": "grid", "shape": [h, w], "seg": seg})
             if h * w <= (8 if tier == "quick" else 10):
                 out.append({"route": "grid-as-graph", "shape": [h, w], "seg": seg})
+    big = [(3, 5), (5, 3), (4, 4), (4, 5), (5, 4)] if tier == "quick" else [(3, 5), (5, 3), (4, 4), (4, 5), (5, 4), (3, 7), (7, 3), (4, 6), (6, 4), (5, 5), (2, 9), (9, 2)]
+    for h, w in big:
+        out.append({"route": "grid", "shape": [h, w], "seg": True, "family": "independent"})
     return out
 
 
@@ -124,11 +160,11 @@ def main(tier, seed, only=None):
         "exploration",
         "all labelled simple graphs n<=%d (n<=4 in 2 edge orientations), all grid shapes with <= %d cells incl. every 1xN / Nx1%s; "
         "all 2^n patterns; not_adjacent (graph form with BoolArray1D and list, grid form) and not_adjacent_and_not_segmenting "
-        "(graph route, specialised grid route, and the grid graph passed explicitly).  Oracle: no edge with both ends active "
-        "(+ inactive vertices induce a connected subgraph)." % (4 if tier == "quick" else 5, 9 if tier == "quick" else 12, "" if tier == "quick" else ", 1x13, 1x14 and transposes"),
+        "(graph route, specialised grid route, and the grid graph passed explicitly); restricted family: on larger boards (up to %s) ALL patterns without two adjacent active cells.  Oracle: no edge with both ends active "
+        "(+ inactive vertices induce a connected subgraph)." % (4 if tier == "quick" else 5, 9 if tier == "quick" else 12, "" if tier == "quick" else ", 1x13, 1x14 and transposes", "4x5" if tier == "quick" else "4x6, 5x5, 3x7, 2x9"),
     )
     run.assumptions = ["implementation under test = encoding + cspuz z3 backend", "empty inactive set counts as connected (as in C04)"]
-    shards = gcheck.split_shards(cases, lambda c: 1 << (c['n'] if 'n' in c else c['shape'][0] * c['shape'][1]), 400)
+    shards = gcheck.split_shards(cases, lambda c: len(independent_sets(*c['shape'])) if c.get('family') else 1 << (c['n'] if 'n' in c else c['shape'][0] * c['shape'][1]), 400)
     par.run_shards(run, worker, shards, seed)
     cov = {
         "evaluations": run.c("evaluations"),
